@@ -173,17 +173,20 @@ class C17(Prop):
                 m = dict((k, v) for k, v in op[1])
                 if len(m) != len(op[1]):
                     raise Violation("patch element has duplicate members: " + ctx, key="shape")
-                if b"op" not in m or m[b"op"][0] != "S" or m[b"op"][1] not in (b"add", b"remove", b"replace"):
-                    raise Violation("patch element has no valid op: " + ctx, key="shape")
+                if b"op" not in m or m[b"op"][0] != "S" or m[b"op"][1] not in (b"add", b"remove", b"replace", b"move", b"copy", b"test"):
+                    raise Violation("patch element has no valid RFC 6902 op: " + ctx, key="shape")
                 if b"path" not in m or m[b"path"][0] != "S":
                     raise Violation("patch element has no path string: " + ctx, key="shape")
-                try:
-                    rfc.ptr_tokens(m[b"path"][1])
-                except rfc.PointerError as e:
-                    raise Violation("patch path %r is not a valid JSON pointer (%s): %s" % (m[b"path"][1], e, ctx), key="path-syntax")
-                needs = m[b"op"][1] in (b"add", b"replace")
-                if needs != (b"value" in m):
-                    raise Violation("'value' present=%s for op %r: %s" % (b"value" in m, m[b"op"][1], ctx), key="shape")
+                for member in (b"path", b"from"):
+                    if member in m and m[member][0] == "S":
+                        try:
+                            rfc.ptr_tokens(m[member][1])
+                        except rfc.PointerError as e:
+                            raise Violation("patch %s %r is not a valid JSON pointer (%s): %s" % (member.decode(), m[member][1], e, ctx), key="path-syntax")
+                if m[b"op"][1] in (b"add", b"replace", b"test") and b"value" not in m:
+                    raise Violation("op %r without 'value': %s" % (m[b"op"][1], ctx), key="shape")
+                if m[b"op"][1] in (b"move", b"copy") and (b"from" not in m or m[b"from"][0] != "S"):
+                    raise Violation("op %r without a 'from' string: %s" % (m[b"op"][1], ctx), key="shape")
             equal = model.eq_set(frm, to, True)
             if equal != (len(pj[1]) == 0):
                 raise Violation("patch is %s although the documents are %s: %s" % ("empty" if not pj[1] else "not empty", "equal" if equal else "different", ctx),
@@ -219,7 +222,7 @@ class C17(Prop):
             rem = {}
             for op in pj[1]:
                 m = dict(op[1])
-                if m[b"op"][1] == b"remove" and m[b"path"][1].split(b"/")[-1].isdigit():
+                if m[b"op"][1] == b"remove" and m[b"path"][1].split(b"/")[-1].isdigit():  # (only used to classify cases)
                     rem[m[b"path"][1]] = rem.get(m[b"path"][1], 0) + 1
             if any(v >= 2 for v in rem.values()):
                 cls.add("array_shortened>=2")
